@@ -33,6 +33,8 @@ ASSUMPTIONS = [
     "default component names of a single-row multi-column plate are not constrained (the statement only names "
     "multi-row plates, multi-column troughs and single-well labware)",
     "fractions are compared with 1e-9 absolute tolerance",
+    "default names of a trough built through the legacy signature Labware(..., rows=1, virtual_rows=n) (which warns "
+    "that robotools.Trough should be used) are not constrained either; such labware takes part in all other rules",
 ]
 HOOK_RULES = ("remove_keeps_composition", "composition_shape", "monitor_error")
 
@@ -72,7 +74,7 @@ def observed_names(ctx, desc, lw, case=None):
         if n_real == 1:
             ctx.count("naming:single_well_default")
             ctx.check("single_well_labware_named_after_labware", all(v == desc["name"] for v in defaults.values()), det)
-        elif (desc["kind"] == "plate" and rows > 1) or (desc["kind"] == "trough" and cols > 1):
+        elif (desc["kind"] == "plate" and rows > 1) or (desc["kind"] == "trough" and cols > 1 and not desc.get("legacy")):
             ctx.count("naming:multi_well_default")
             vals = list(defaults.values())
             ctx.check("default_names_distinct_per_well", len(set(vals)) == len(vals), det)
@@ -159,7 +161,8 @@ class CompositionMonitor(hist.Monitor):
                             self.src_known = False
                             L.add(idx, v, None)
                             continue
-                        if not fr_src and float(v) == 0:
+                        if not fr_src and float(v) <= 1e-9:
+                            # (a float residue of ~1e-16 uL in a well that is empty in exact arithmetic counts as nothing)
                             # nothing is taken from an empty well: its mixture is undefined
                             ctx.count("zero_volume_from_empty_source")
                             L.add(idx, v, {})
